@@ -10,6 +10,8 @@ CONSTANTS
   RetainPats <- cRetain
   ItemSeqs <- cItems
   Hints = {0}
+  RawArgs <- cRawNone
+  U16Args <- cU16None
   FailMode = 0
   PanicMode = 0
   Seeds <- cSeedsEmpty
